@@ -15,6 +15,7 @@ type PointRec struct {
 	Costs  []int8
 	Key    uint64 // state key at the choice (0 unless the execution keeps keys)
 	Digest uint64
+	Held   bool // inside the preamble of a HoldBranching execution: not branched on
 }
 
 type replayChooser struct {
@@ -45,7 +46,7 @@ func (r *replayChooser) Choose(kind string, costs []int8) int {
 		cc[k] = costs[k]
 	}
 	key, dg := PointKey()
-	r.points = append(r.points, PointRec{N: len(costs), Chosen: c, Cost: costs[c], Kind: kind, Costs: cc, Key: key ^ hashStr(kind), Digest: dg})
+	r.points = append(r.points, PointRec{N: len(costs), Chosen: c, Cost: costs[c], Kind: kind, Costs: cc, Key: key ^ hashStr(kind), Digest: dg, Held: Held()})
 	return c
 }
 
@@ -97,6 +98,8 @@ type Explorer struct {
 	// the scenario is still executed at least once, not every path). Sound for oracles that judge states and
 	// transitions (panics, stranded threads, per-thread results), not for oracles over the global order of events.
 	Unbounded bool
+	// HoldBranching: see Config.HoldBranching.
+	HoldBranching bool
 	// Digest: harness state summary compared when a state key is met again (see Config.Digest).
 	Digest func(user any) uint64
 	// MaxVisited caps the state cache (0: 4,000,000); when it is reached the exploration stops as truncated.
@@ -148,7 +151,7 @@ func (x *Explorer) altCost(p PointRec, alt int) int {
 func (x *Explorer) RunOnce(prefix []int, expect []PointRec, keepTrace bool) (*Result, any, *replayChooser) {
 	body, user := x.Make()
 	ch := &replayChooser{prefix: prefix, expect: expect}
-	cfg := Config{Horizon: x.Horizon, KeepTrace: keepTrace, KeepKeys: x.KeepKeys || x.Prune || x.Unbounded, User: user}
+	cfg := Config{Horizon: x.Horizon, KeepTrace: keepTrace, KeepKeys: x.KeepKeys || x.Prune || x.Unbounded, User: user, HoldBranching: x.HoldBranching}
 	if x.Digest != nil && x.Unbounded {
 		cfg.Digest = func() uint64 { return x.Digest(user) }
 	}
@@ -263,6 +266,9 @@ func (x *Explorer) explore(prefix []int, cost int, expect []PointRec, depth int,
 	pts := ch.points
 	for i := len(prefix); i < len(pts); i++ {
 		p := pts[i]
+		if p.Held {
+			continue
+		}
 		if x.Unbounded {
 			rem := int8(x.Bound - cost)
 			if e, seen := x.visited[p.Key]; seen {
